@@ -434,6 +434,12 @@ func c19Cosine(c *Ctx, sx *symx.Ctx) {
 				continue
 			}
 			m, badThen := g.match(op, x, y)
+			if !m && g.name == "len(a) != 0" {
+				// any spelling of the emptiness test (n < 1, n == 0, n > 0, ...)
+				if lx, zero, isZ := ssau.LenZeroTest(iff.Cond); isZ && (lx == ssa.Value(a) || lx == ssa.Value(b)) {
+					m, badThen = true, zero == 0
+				}
+			}
 			if !m {
 				continue
 			}
@@ -513,6 +519,42 @@ func headerSource(v ssa.Value, cells map[*ssa.Alloc]*ssa.Call) (*ssa.Alloc, ssa.
 			v = x.X
 		case *ssa.ChangeType:
 			v = x.X
+		case *ssa.Extract, *ssa.Call:
+			// the result of a small reading helper of the repository
+			// (n, err := readUint32(r)): the cell it decodes into stands for it
+			var call *ssa.Call
+			if ex, ok := x.(*ssa.Extract); ok {
+				if ex.Index != 0 {
+					return nil, nil
+				}
+				call, _ = ex.Tuple.(*ssa.Call)
+			} else {
+				call = x.(*ssa.Call)
+			}
+			if call == nil {
+				return nil, nil
+			}
+			g := call.Common().StaticCallee()
+			if g == nil || g.Blocks == nil || !strings.HasPrefix(ssau.FuncName(g), load.ModulePath) {
+				return nil, nil
+			}
+			inner := decodedInts(g)
+			var cell *ssa.Alloc
+			for _, ret := range ssau.ReturnsOf(g) {
+				rv := ret.Results[0]
+				if k, isC := ssau.ConstInt(rv); isC && k == 0 {
+					continue // error path
+				}
+				al, _ := headerSource(rv, inner)
+				if al == nil || (cell != nil && cell != al) {
+					return nil, nil
+				}
+				cell = al
+			}
+			if cell == nil {
+				return nil, nil
+			}
+			return cell, v
 		case *ssa.UnOp:
 			if x.Op == token.MUL {
 				if al, ok := x.X.(*ssa.Alloc); ok {
